@@ -12,51 +12,68 @@ const unixToInternal int64 = (1969*365 + 1969/4 - 1969/100 + 1969/400) * 86400
 func registerSyncTimeModels(e *Engine) {
 	// ---- sync.Mutex / RWMutex: explicit lock objects keyed by address; single-threaded semantics:
 	// acquiring a lock that is already held can never succeed => self-deadlock.
-	e.models["(*sync.Mutex).Lock"] = func(fr *frame, fn *ssa.Function, args []value) value {
-		l := fr.p.lockOf(fr.derefPtr(args[0]), "Mutex")
-		if l.writer {
-			panic(abortPath{kind: "deadlock", reason: "Lock of a mutex already held by this thread (" + l.name + ") @ " + fr.stack()})
-		}
-		l.writer = true
-		return nil
+	wouldBlock := func(fr *frame, l *lockState) {
+		// held by another logical thread: this interleaving cannot happen at this point (the caller would wait)
+		panic(abortPath{kind: "infeasible", reason: "would block on " + l.name + " held by another logical thread"})
 	}
+	selfDeadlock := func(fr *frame, l *lockState, what string) {
+		panic(abortPath{kind: "deadlock", reason: what + " of a lock already held by the same thread (" + l.name + ") @ " + fr.stack()})
+	}
+	lockW := func(kind string) modelFn {
+		return func(fr *frame, fn *ssa.Function, args []value) value {
+			l := fr.p.lockOf(fr.derefPtr(args[0]), kind)
+			me := fr.p.thread
+			if l.writer {
+				if l.owner == me {
+					selfDeadlock(fr, l, "Lock")
+				}
+				wouldBlock(fr, l)
+			}
+			if l.readers > 0 {
+				if l.rby[me] > 0 {
+					selfDeadlock(fr, l, "Lock")
+				}
+				wouldBlock(fr, l)
+			}
+			l.writer, l.owner = true, me
+			return nil
+		}
+	}
+	unlockW := func(kind string) modelFn {
+		return func(fr *frame, fn *ssa.Function, args []value) value {
+			l := fr.p.lockOf(fr.derefPtr(args[0]), kind)
+			if !l.writer {
+				panic(targetPanic{msg: "fatal error: sync: unlock of unlocked " + kind, pos: fr.stack()})
+			}
+			l.writer = false
+			return nil
+		}
+	}
+	e.models["(*sync.Mutex).Lock"] = lockW("Mutex")
+	e.models["(*sync.Mutex).Unlock"] = unlockW("Mutex")
 	e.models["(*sync.Mutex).TryLock"] = func(fr *frame, fn *ssa.Function, args []value) value {
 		l := fr.p.lockOf(fr.derefPtr(args[0]), "Mutex")
 		if l.writer {
 			return false
 		}
-		l.writer = true
+		l.writer, l.owner = true, fr.p.thread
 		return true
 	}
-	e.models["(*sync.Mutex).Unlock"] = func(fr *frame, fn *ssa.Function, args []value) value {
-		l := fr.p.lockOf(fr.derefPtr(args[0]), "Mutex")
-		if !l.writer {
-			panic(targetPanic{msg: "fatal error: sync: unlock of unlocked mutex", pos: fr.stack()})
-		}
-		l.writer = false
-		return nil
-	}
-	e.models["(*sync.RWMutex).Lock"] = func(fr *frame, fn *ssa.Function, args []value) value {
-		l := fr.p.lockOf(fr.derefPtr(args[0]), "RWMutex")
-		if l.writer || l.readers > 0 {
-			panic(abortPath{kind: "deadlock", reason: "Lock of an RWMutex already held by this thread (" + l.name + ") @ " + fr.stack()})
-		}
-		l.writer = true
-		return nil
-	}
-	e.models["(*sync.RWMutex).Unlock"] = func(fr *frame, fn *ssa.Function, args []value) value {
-		l := fr.p.lockOf(fr.derefPtr(args[0]), "RWMutex")
-		if !l.writer {
-			panic(targetPanic{msg: "fatal error: sync: Unlock of unlocked RWMutex", pos: fr.stack()})
-		}
-		l.writer = false
-		return nil
-	}
+	e.models["(*sync.RWMutex).Lock"] = lockW("RWMutex")
+	e.models["(*sync.RWMutex).Unlock"] = unlockW("RWMutex")
 	e.models["(*sync.RWMutex).RLock"] = func(fr *frame, fn *ssa.Function, args []value) value {
 		l := fr.p.lockOf(fr.derefPtr(args[0]), "RWMutex")
+		me := fr.p.thread
 		if l.writer {
-			panic(abortPath{kind: "deadlock", reason: "RLock of an RWMutex write-held by this thread (" + l.name + ") @ " + fr.stack()})
+			if l.owner == me {
+				selfDeadlock(fr, l, "RLock")
+			}
+			wouldBlock(fr, l)
 		}
+		if l.rby == nil {
+			l.rby = map[int]int{}
+		}
+		l.rby[me]++
 		l.readers++
 		return nil
 	}
@@ -65,6 +82,7 @@ func registerSyncTimeModels(e *Engine) {
 		if l.readers == 0 {
 			panic(targetPanic{msg: "fatal error: sync: RUnlock of unlocked RWMutex", pos: fr.stack()})
 		}
+		l.rby[fr.p.thread]--
 		l.readers--
 		return nil
 	}
